@@ -47,6 +47,7 @@ spelled out.  Tiling is proven as "offset + map_len is where `post` starts" for 
 the former and is exercised by correspondence.
 -/
 import Sds.Proofs.Glue4
+import Sds.Proofs.GenEqView
 
 namespace Sds.C13
 open Sds Outcome
@@ -364,5 +365,24 @@ example : ∀ m : Mode,
       ok ⟨0, 3, 9, packBytes [1, 2, 3, 4, 5, 6, 7, 8, 9]⟩ ∧
     (toBytes (packBytes [1, 2, 3, 4, 5, 6, 7, 8, 9])).take 9 = [1, 2, 3, 4, 5, 6, 7, 8, 9] := by
   intro m; cases m <;> decide
+
+/-! **The read accessors of the mapped views as translated from the source on this run** (`Generated/FnsView.lean`):
+`RawVectorMapper::{bit, int, word, word_unchecked, count_ones}` and `IntVectorMapper::get` (the mapped words are the word
+array of the view).  They are, word for word, the same functions as the in-memory ones — the generated definitions are
+*definitionally* equal (`GenEq.mapper_bit_def`, … by `rfl`) — and so they read from a view exactly what the in-memory
+vector with the same words returns: "each view exposes the content that loading gives".  (The view constructors
+themselves — offset tests, length arithmetic — are hand-modelled in Model/Mapper and tied by correspondence.) -/
+theorem mapped_accessors_as_translated_from_source (m : Mode) (v : RawVec) (iv : IntVec) (i off w : Nat) :
+    Generated.gen_RawVectorMapper_bit = Generated.gen_RawVector_bit ∧
+    Generated.gen_RawVectorMapper_int = Generated.gen_RawVector_int ∧
+    Generated.gen_IntVectorMapper_get = Generated.gen_IntVector_get ∧
+    Generated.gen_RawVectorMapper_bit m v i = v.bitM i ∧
+    Generated.gen_RawVectorMapper_word m v i = v.wordM i ∧
+    (w ≤ 64 → off < U64 → off + w ≤ 64 * v.data.size → Generated.gen_RawVectorMapper_int m v off w = ok (v.int off w)) ∧
+    (iv.WF → iv.len * iv.width < U64 → Generated.gen_IntVectorMapper_get m iv i = iv.get i) ∧
+    (64 * v.data.size < U64 → Generated.gen_RawVectorMapper_count_ones m v = ok v.countOnes) :=
+  ⟨GenEq.mapper_bit_def, GenEq.mapper_int_def, GenEq.mapper_get_def, GenEq.mapper_bit_eq m v i, GenEq.mapper_word_eq m v i,
+   fun hw ho hin => GenEq.mapper_int_eq m v off w hw ho hin, fun hwf hb => GenEq.mapper_get_eq m iv i hwf hb,
+   fun h => GenEq.mapper_count_ones_eq m v h⟩
 
 end Sds.C13
